@@ -45,7 +45,9 @@ SAMPLE_FIELDS = ('a', 'b', 0, 1)
 # the second visit rebuilds the record without the BadType field, so neither side
 # reports the clash.  The sampled generator stays away from exactly that class:
 # (no common instance) and (a list/record object reachable along two paths).
-AVOID_SHARED_COMPOSITE_CLASH = os.environ.get('LV_C16_NO_AVOID') != '1'
+# Repaired in /repo by fix: 0b4c870 (UnifyFriendlyRecords kept overwriting the BadType):
+# the class is generated again; LV_C16_AVOID=1 restores the old exclusion.
+AVOID_SHARED_COMPOSITE_CLASH = os.environ.get('LV_C16_AVOID') == '1'
 K_SHARED_CLASH = 'clash_lost_in_shared_composite'
 MAX_DEPTH = 3
 
